@@ -23,12 +23,23 @@ def _through_repackaging(b, t, o, depth):
     parameters (`fn into_ingredients(self) -> Ingredients { Ingredients { actor, config, channel } }`): the roots of the
     corresponding argument at this call site"""
     fx = FX[0]
-    if fx is None or not o.proj or depth > 4:
+    if fx is None or depth > 4:
         return None
     h = fx.callee_fn(t)
     if h is None or h.get("is_async") or h["kind"] not in ("fn", "assoc_fn"):
         return None
     hb = Body(h)
+    if not o.proj:
+        # a constructor that merely wraps its parameter (`Entry::new(addr) = Entry(Box::new(addr))`)
+        if len([1 for _b3, t3 in hb.normal_calls() if not (t3.get("callee") or "").startswith(("core::", "log::", "std::", "alloc::boxed::"))]) > 0:
+            return None
+        hr = roots(hb, {"k": "move", "p": [0]}, depth + 1)
+        if not hr or not all(x.kind == "arg" and not x.proj and x.site - 1 < len(t["args"]) for x in hr):
+            return None
+        out = set()
+        for x in hr:
+            out |= roots(b, t["args"][x.site - 1], depth + 1)
+        return out
     lits = [st for _b2, _s2, st in agg_sites(hb) if st["p"] == [0] and st["r"].get("ak") in ("adt", "tuple")]
     if len(lits) != 1 or len([1 for _b3, t3 in hb.normal_calls() if not (t3.get("callee") or "").startswith(("core::", "log::", "std::"))]) > 0:
         return None
@@ -54,7 +65,7 @@ def roots(b, operand, depth=0):
         if o.kind == "call" and depth < 6:
             t = b.call_at(o)
             c = t.get("callee") or ""
-            if c.endswith(IDENTITY_SUFFIX) and t["args"]:
+            if (c.endswith(IDENTITY_SUFFIX) or (c.startswith("alloc::boxed::") and c.endswith("::new"))) and t["args"]:
                 for a in (t["args"][:1] if c.endswith(FIRST_ARG_ONLY) else t["args"][:2]):
                     out |= roots(b, a, depth + 1)
                 continue
